@@ -4,6 +4,8 @@ import FinVerif.Driver.Util
 import FinVerif.Gen.KernF
 import FinVerif.Model.C20
 import FinVerif.Model.C20Phi2
+import FinVerif.Model.C20Halley
+import FinVerif.Model.C20Phi2G
 import FinVerif.Model.C20Sobol
 open FinVerif FinVerif.Driver FinVerif.Gen.KernF FinVerif.Model.C20 FinVerif.Model.C20Sobol
 
@@ -28,6 +30,14 @@ def famD (fam : Int) (c : Array Float) (x : Float) : Float :=
   else if fam == 1 then c1 * c2 * Float.exp (c2 * x) + c3
   else if fam == 2 then (if c2 * (x - c0) > 0.0 then c2 else 0.0)
   else if fam == 3 then (if x < c0 then 0.0 else if x > c1 then 0.0 else 1.0)
+  else 0.0
+
+/-- second derivative of the two smooth families (0 for the piecewise ones), same operation order as `fam_d2` in
+harness/props/c20.py. -/
+def famD2 (fam : Int) (c : Array Float) (x : Float) : Float :=
+  let c1 := c.getD 1 0; let c2 := c.getD 2 0; let c3 := c.getD 3 0
+  if fam == 0 then 6.0 * c3 * x + 2.0 * c2
+  else if fam == 1 then c1 * c2 * c2 * Float.exp (c2 * x)
   else 0.0
 
 def showOpt : Option Float → String
@@ -78,6 +88,27 @@ def step (t : List String) : String :=
     | some fam, some [c0, c1, c2, c3, x0, tol], some mi =>
       showExcept showNewton (newton (famF fam #[c0, c1, c2, c3]) (famD fam #[c0, c1, c2, c3]) x0 tol 0.0 mi)
     | _, _, _ => "bad-op"
+  | ["halley", fam, c0, c1, c2, c3, x0, tol, maxiter] =>
+    match int? fam, floats? [c0, c1, c2, c3, x0, tol], int? maxiter with
+    | some fam, some [c0, c1, c2, c3, x0, tol], some mi =>
+      showExcept showNewton (newtonHalley (famF fam #[c0, c1, c2, c3]) (famD fam #[c0, c1, c2, c3])
+        (famD2 fam #[c0, c1, c2, c3]) x0 tol 0.0 mi)
+    | _, _, _ => "bad-op"
+  | ["nsecant", fam, c0, c1, c2, c3, x0, tol, maxiter] =>
+    match int? fam, floats? [c0, c1, c2, c3, x0, tol], int? maxiter with
+    | some fam, some [c0, c1, c2, c3, x0, tol], some mi =>
+      showExcept (fun (r : SecRes Float) => match r with
+        | .mid p => "root " ++ showFloat p
+        | .step p _ => "step " ++ showFloat p
+        | .flat => "None"
+        | .noconv p => "noconv " ++ showFloat p) (newtonSec (famF fam #[c0, c1, c2, c3]) 1e-4 x0 tol 0.0 mi)
+    | _, _, _ => "bad-op"
+  | ["sstart", x0] => one (fun x => showFloat (secantStart 1e-4 x)) [x0]
+  | ["sstart2", x0] => one (fun x => showFloat (secantStartNewton 1e-4 x)) [x0]
+  | ["phi2g", h, k, r] =>
+    match floats? [h, k, r] with
+    | some [h, k, r] => showFloat (phi2GF h k r)
+    | _ => "bad-op"
   | ["secant", fam, c0, c1, c2, c3, x0, tol, maxiter, disp] =>
     match int? fam, floats? [c0, c1, c2, c3, x0, tol], int? maxiter with
     | some fam, some [c0, c1, c2, c3, x0, tol], some mi =>
